@@ -406,6 +406,26 @@ Fixpoint run (s : gst) (es : list ev) : option gst :=
 (* the next target the dispatcher would start (used by the trace acceptor to name threads) *)
 Definition next_target (s : gst) : option nat := first_from not_canceled (ws s) (idx s).
 
+(* "every thread is blocked": the watchdog sleeps and is not due, and every worker is either not
+   created, inside connect()/poll() with no signal pending, or gone.  Time advancing only in such
+   states is the maximal-progress reading of "threads are fast compared with seconds". *)
+Definition calm_pc (w : wk) : bool :=
+  match pc w with
+  | PNone | PExit => true
+  | PInConn | PPoll => negb (eintr w)
+  | _ => false
+  end.
+Definition calm (s : gst) : bool :=
+  match wd s with WdSleep u => now s <? u | WdKilling _ => false end && forallb calm_pc (ws s).
+
+(* the stamp + timeout of a worker that hangs un-signalled in a state the watchdog covers *)
+Definition hang_due (i : nat) (w : wk) : option Z :=
+  match pc w, behof i, ts w with
+  | PInConn, BHangConn, TRcmd => if negb (eintr w) && (0 <? tconn c) then Some (start w + tconn c) else None
+  | PPoll, BHangRead, TReading => if negb (eintr w) && (0 <? tcmd c) then Some (conn w + tcmd c) else None
+  | _, _, _ => None
+  end.
+
 (* observables *)
 Definition wpc_inflight (p : wpc) : bool :=
   match p with PInConn | PWantB | PHoldB | PPoll | PTerm | PWantC | PHoldC | PFlush => true | _ => false end.
